@@ -18,8 +18,9 @@ width and path count; every path replayed from a fresh story). Oracle: an indepe
 interpreter over the same AST (harness/src/refint.rs): per turn the lines (text, tags), the offered choices (text, \
 tags, order) or the end / error status, and at the end of every path the typed value of every global and the visit \
 count of every knot and stitch must be equal. Second oracle (layout metamorphism): the same AST printed with \
-Ink-irrelevant layout changes (blank lines, trailing spaces, // comments, deeper uniform indentation) must play \
-identically. Non-trivial = path with >= 1 choice point reached, >= 3 lines delivered and >= 2 of {nested weave, \
+Ink-irrelevant changes (blank lines, trailing spaces, // and block comments, deeper uniform indentation, tabs, \
+a stitch of the current knot named without the knot) must compile and play identically along the explored paths. \
+ Non-trivial = path with >= 1 choice point reached, >= 3 lines delivered and >= 2 of {nested weave, \
 fallback followed, once-only choice exhausted, thread, tunnel, function that printed text, glue, look-ahead \
 stressor executed, read count evaluated, sequence evaluated}; distinct = hash(source, path).";
 
@@ -102,6 +103,94 @@ fn show_turn(t: &Turn) -> String {
     } else {
         format!("lines={:?} stop={:?} ({})", t.lines, t.stop, t.note)
     }
+}
+
+
+/// play a path on the compiled story only
+fn real_path(json_text: &str, meta: &Rc<Meta>, path: &[usize]) -> Result<Result<(Vec<Turn>, View, bool), String>, PanicInfo> {
+    let cfg = HostCfg { bind_externals: None, ..HostCfg::default() };
+    guard(|| {
+        let mut h = Host::new(json_text, meta.clone(), &cfg).map_err(|e| e.to_string())?;
+        let mut turns = vec![];
+        let mut k = 0;
+        loop {
+            let t = real_turn(&mut h);
+            let open = matches!(&t.stop, TStop::Choices(_));
+            turns.push(t);
+            if !open || k >= path.len() {
+                break;
+            }
+            h.apply(&HostOp::Choose(path[k]));
+            k += 1;
+        }
+        let view = h.view();
+        Ok::<_, String>((turns, view, h.fuel_exhausted()))
+    })
+}
+
+/// The same program with layout changes that Ink defines as meaningless: blank lines,
+/// trailing spaces, comment lines, deeper uniform indentation, tabs for indentation.
+pub fn layout_variant(src: &str, tape: &[u16]) -> (String, Vec<&'static str>) {
+    let mut t = crate::pgen::Tape::new(tape);
+    let mut kinds = vec![];
+    let blank = t.chance(1, 2);
+    let trailing = t.chance(1, 2);
+    let comments = t.chance(1, 2);
+    let deeper = t.chance(1, 3);
+    let tabs = t.chance(1, 3);
+    let block_comment = t.chance(1, 4);
+    if blank { kinds.push("blank_lines"); }
+    if trailing { kinds.push("trailing_spaces"); }
+    if comments { kinds.push("comment_lines"); }
+    if deeper { kinds.push("deeper_indentation"); }
+    if tabs { kinds.push("tab_indentation"); }
+    if block_comment { kinds.push("block_comments"); }
+    let bare = t.chance(1, 2);
+    if bare {
+        kinds.push("bare_stitch_names");
+    }
+    let mut out = String::new();
+    let mut knot = String::new();
+    for line in src.lines() {
+        // inside a knot its stitches may be named without the knot
+        let owned;
+        let mut line = line;
+        if let Some(h) = line.strip_prefix("=== ") {
+            let name: String = h.trim_start_matches("function ").chars().take_while(|c| c.is_alphanumeric() || *c == '_').collect();
+            knot = name;
+        } else if bare && !knot.is_empty() {
+            let from = format!("-> {knot}.s");
+            if line.contains(&from) {
+                owned = line.replace(&from, "-> s");
+                line = &owned;
+            }
+        }
+        if comments && t.chance(1, 4) {
+            out.push_str("// a remark for the writer\n");
+        }
+        if block_comment && t.chance(1, 6) {
+            out.push_str("/* a longer remark\n   over two lines */\n");
+        }
+        if blank && t.chance(1, 3) {
+            out.push('\n');
+        }
+        let indent_len = line.len() - line.trim_start_matches(' ').len();
+        let (indent, rest) = line.split_at(indent_len);
+        let mut ind = if tabs { "\t".repeat(indent.len() / 4) } else { indent.to_string() };
+        if deeper {
+            ind = format!("      {ind}");
+        }
+        out.push_str(&ind);
+        out.push_str(rest);
+        // (not on choice and gather lines: whether blanks after `]` are content is not settled
+        // by the documentation)
+        let weave_line = rest.starts_with('*') || rest.starts_with('+') || rest.starts_with('-');
+        if trailing && !weave_line && t.chance(1, 2) {
+            out.push_str("   ");
+        }
+        out.push('\n');
+    }
+    (out, kinds)
 }
 
 struct Bounds {
@@ -276,7 +365,11 @@ fn explore(src: &str, prog: &crate::ast::Program, bounds: &Bounds, case: &J, acc
     // depth-first over choice paths, every path replayed from scratch
     let mut stack: Vec<Vec<usize>> = vec![vec![]];
     let mut npaths = 0;
+    let mut played: Vec<Vec<usize>> = vec![];
     while let Some(path) = stack.pop() {
+        if played.len() < 12 {
+            played.push(path.clone());
+        }
         if npaths >= bounds.paths {
             acc.class("path_cap_reached");
             break;
@@ -290,6 +383,65 @@ fn explore(src: &str, prog: &crate::ast::Program, bounds: &Bounds, case: &J, acc
                     p.push(c);
                     stack.push(p);
                 }
+            }
+        }
+    }
+    // second oracle: Ink-irrelevant layout changes do not change the story
+    let ltape: Vec<u16> = case["tape"]
+        .as_array()
+        .map(|a| a.iter().rev().take(400).filter_map(|v| v.as_u64().map(|x| x as u16)).collect())
+        .unwrap_or_default();
+    let (vsrc, kinds) = layout_variant(src, &ltape);
+    if !kinds.is_empty() {
+        let vjson = match guard(|| compile(&vsrc)) {
+            Err(p) => {
+                return Err(Fail::violation(
+                    format!("panic@{}", p.site()),
+                    format!("compiler panicked on a layout variant: {} ({})", p.msg, p.site()),
+                    json!({"tape": case["tape"], "source": case["source"], "variant": vsrc, "depth": case["depth"], "width": case["width"], "paths": case["paths"]}),
+                ));
+            }
+            Ok(Err(e)) => {
+                return Err(Fail::violation(
+                    "layout:compile-error",
+                    format!("the program compiles, but not with layout changes {kinds:?}: {e}"),
+                    json!({"tape": case["tape"], "source": case["source"], "variant": vsrc, "depth": case["depth"], "width": case["width"], "paths": case["paths"]}),
+                ));
+            }
+            Ok(Ok(j)) => j,
+        };
+        let vmeta = Rc::new(meta_from_json(&vjson));
+        for k in &kinds {
+            acc.class(&format!("layout:{k}"));
+        }
+        for path in &played {
+            let a = real_path(&json_text, &meta, path);
+            let b = real_path(&vjson, &vmeta, path);
+            let (Ok(Ok((ta, va, fa))), Ok(Ok((tb, vb, fb)))) = (a, b) else {
+                return Err(Fail::violation(
+                    "layout:play-fails",
+                    format!("a layout variant ({kinds:?}) cannot be played along path {path:?}"),
+                    json!({"tape": case["tape"], "source": case["source"], "variant": vsrc, "depth": case["depth"], "width": case["width"], "paths": case["paths"]}),
+                ));
+            };
+            if fa || fb {
+                continue;
+            }
+            acc.eval();
+            // (visit counts: knots and stitches only; the two documents need not name their
+            // internal containers alike)
+            let counts = |v: &View| -> Vec<i32> { lw.count_names.iter().map(|n| v.visits.get(n).copied().unwrap_or(0)).collect() };
+            if ta != tb || va.globals != vb.globals || counts(&va) != counts(&vb) {
+                let i = (0..ta.len().max(tb.len())).find(|i| ta.get(*i) != tb.get(*i));
+                return Err(Fail::violation(
+                    "layout:play-differs",
+                    format!(
+                        "layout changes {kinds:?} change the story along path {path:?}: turn {i:?}: original {} | variant {}",
+                        i.and_then(|i| ta.get(i)).map(show_turn).unwrap_or(format!("<same turns> globals {:?} counts {:?}", va.globals, counts(&va))),
+                        i.and_then(|i| tb.get(i)).map(show_turn).unwrap_or(format!("<same turns> globals {:?} counts {:?}", vb.globals, counts(&vb)))
+                    ),
+                    json!({"tape": case["tape"], "source": case["source"], "variant": vsrc, "depth": case["depth"], "width": case["width"], "paths": case["paths"]}),
+                ));
             }
         }
     }
